@@ -2,7 +2,7 @@
 import ast
 
 from ..cfg import known_falsy, known_truthy
-from ..model import AnalysisError, attr_chain, self_attr, unparse, walk_body_shallow, walk_shallow
+from ..model import AnalysisError, ShapeError, attr_chain, self_attr, unparse, walk_body_shallow, walk_shallow
 
 REG_METHODS = {"addCallback": "cb", "addErrback": "eb", "addBoth": "both", "addCallbacks": "cbs"}
 
@@ -84,13 +84,13 @@ def kwarg(call, name, pos=None):
 
 def need(cond, msg):
     if not cond:
-        raise AnalysisError(msg)
+        raise ShapeError(msg)
 
 
 def one(seq, what):
     seq = list(seq)
     if len(seq) != 1:
-        raise AnalysisError("expected exactly one %s, found %d" % (what, len(seq)))
+        raise ShapeError("expected exactly one %s, found %d" % (what, len(seq)))
     return seq[0]
 
 
